@@ -28,29 +28,31 @@ func initFns(pkg *ssa.Package) []*ssa.Function {
 }
 
 type EntrySpec struct {
-	Dir          string              `json:"dir"`
-	Entry        string              `json:"entry"`
-	Tier         string              `json:"tier"` // quick | thorough | both
-	Mode         string              `json:"mode"` // R | F
-	Solver       string              `json:"solver"`
-	Unwind       int                 `json:"unwind"`
-	MaxPaths     int                 `json:"max_paths"`
-	TimeoutMs    int                 `json:"timeout_ms"`
-	ForkMap      bool                `json:"fork_map_order"`
-	AllowCuts    bool                `json:"allow_cuts"`
-	CutReason    string              `json:"cut_reason"`
-	Redirects    map[string]string   `json:"redirects"`
-	Desc         string              `json:"desc"`
-	Bounds       string              `json:"bounds"`
-	Race         bool                `json:"race"`
-	Overflow     bool                `json:"overflow"`
-	Tol          float64             `json:"tol"`
-	Schedule     bool                `json:"schedule"` // C16: collect access traces and run the schedule query
-	MaxEnum      int                 `json:"max_enum"`
-	NoValidate   bool                `json:"no_validate"`
-	ExpectNd     bool                `json:"expect_no_nondeterminism"`
-	NativeRename map[string][]string `json:"native_rename"`
-	NativeFiles  []string            `json:"native_files"`
+	Dir            string              `json:"dir"`
+	Entry          string              `json:"entry"`
+	Tier           string              `json:"tier"` // quick | thorough | both
+	Mode           string              `json:"mode"` // R | F
+	Solver         string              `json:"solver"`
+	Unwind         int                 `json:"unwind"`
+	MaxPaths       int                 `json:"max_paths"`
+	TimeoutMs      int                 `json:"timeout_ms"`
+	ForkMap        bool                `json:"fork_map_order"`
+	AllowCuts      bool                `json:"allow_cuts"`
+	CutReason      string              `json:"cut_reason"`
+	Redirects      map[string]string   `json:"redirects"`
+	Desc           string              `json:"desc"`
+	Bounds         string              `json:"bounds"`
+	Race           bool                `json:"race"`
+	Overflow       bool                `json:"overflow"`
+	Tol            float64             `json:"tol"`
+	Schedule       bool                `json:"schedule"` // C16: collect access traces and run the schedule query
+	MaxEnum        int                 `json:"max_enum"`
+	NoValidate     bool                `json:"no_validate"`
+	ExpectNd       bool                `json:"expect_no_nondeterminism"`
+	NativeRename   map[string][]string `json:"native_rename"`
+	NativeFiles    []string            `json:"native_files"`
+	ReplayAttempts int                 `json:"replay_attempts"` // native confirmation may need several runs (map order, scheduling)
+	MaxWallS       int                 `json:"max_wall_s"`
 }
 
 type CheckSpec struct {
@@ -203,6 +205,7 @@ type entryReport struct {
 	Violations   int               `json:"violations"`
 	UnknownFeas  int               `json:"feasibility_unknown_kept"`
 	SchedQueries int               `json:"schedule_queries,omitempty"`
+	CrossCheck   string            `json:"engine_cross_check,omitempty"`
 }
 
 func cmdCheck(args []string) int {
@@ -216,6 +219,7 @@ func cmdCheck(args []string) int {
 	verbose := fs.Bool("v", false, "verbose")
 	noEvidence := fs.Bool("no-evidence", false, "do not write the evidence file")
 	maxPathsOv := fs.Int("maxpaths", 0, "override the path limit (probing)")
+	noCross := fs.Bool("no-cross", false, "skip the thorough tier's no-merge / second-solver cross-check")
 	replayDir := fs.String("replaydir", "", "directory for counter-example scripts (default <verif>/replays)")
 	var id string
 	if len(args) > 0 && !strings.HasPrefix(args[0], "-") {
@@ -274,6 +278,7 @@ func cmdCheck(args []string) int {
 	witnessObs := map[string][]ObservedVal{}
 	witnessEntry := map[string]int{}
 	schedViolations := []string{}
+	anyStoppedEarly := false
 	allAsserts := map[string]bool{}
 	assertsHit := map[string]int{}
 
@@ -319,6 +324,12 @@ func cmdCheck(args []string) int {
 		if *maxPathsOv > 0 {
 			cfg.MaxPaths = *maxPathsOv
 		}
+		cfg.StopAfterViol = 12
+		wall := es.MaxWallS
+		if wall == 0 {
+			wall = map[string]int{"quick": 420, "thorough": 3600}[*tier]
+		}
+		cfg.Deadline = time.Now().Add(time.Duration(wall) * time.Second)
 		cfg.ForkMapOrder = es.ForkMap
 		cfg.AllowCuts = es.AllowCuts
 		cfg.CheckOverflow = es.Overflow
@@ -337,10 +348,42 @@ func cmdCheck(args []string) int {
 		if *verbose {
 			printResult(res, false)
 		}
+		// thorough tier: cross-check of the engine itself - the entry is explored a second time WITHOUT state merging
+		// and with the other solver (z3 5.1.0); the two runs must reach the same verdict on every assertion
+		crossNote := ""
+		if *tier == "thorough" && es.Tier == "both" && !cfg.FMode && !*noCross {
+			cfg2 := *cfg
+			cfg2.NoMerge = true
+			cfg2.Solver = "z3-new"
+			res2 := Explore(ld.prog, fn, initFns(pkg), &cfg2)
+			m1, m2 := map[string]bool{}, map[string]bool{}
+			for _, v := range res.Violations {
+				m1[v.Msg] = true
+			}
+			for _, v := range res2.Violations {
+				m2[v.Msg] = true
+			}
+			agree := len(m1) == len(m2) && res.Reached["end"] > 0 == (res2.Reached["end"] > 0)
+			for k := range m1 {
+				if !m2[k] {
+					agree = false
+				}
+			}
+			if len(res2.Inconclusive) > 0 || res2.MaxPathsHit {
+				crossNote = fmt.Sprintf("cross-check run (no merging, z3-new) inconclusive: %d issues", len(res2.Inconclusive))
+			} else if !agree {
+				crossNote = "DISAGREEMENT between the merged/z3 run and the unmerged/z3-new run"
+				inconclusive = append(inconclusive, es.Entry+": engine cross-check disagreement (state merging or solver): "+fmt.Sprint(len(m1), " vs ", len(m2), " violated assertions"))
+			} else {
+				crossNote = fmt.Sprintf("cross-check agreed: %d paths without merging on z3-new vs %d paths with merging on z3; %d obligations re-discharged", res2.Paths, res.Paths, res2.Discharged)
+			}
+			totalQueries += res2.Solver.Queries
+			solverTime += res2.Solver.Time
+		}
 		rep := entryReport{Entry: es.Entry, Desc: es.Desc, Bounds: es.Bounds, FloatModel: map[bool]string{true: "F (IEEE-754 binary64, RNE)", false: "R (reals)"}[cfg.FMode], Solver: cfg.Solver,
 			Paths: res.Paths, PathEnds: res.Ends, Branches: res.Branches, Steps: res.Steps, Obligations: res.Obligations, Discharged: res.Discharged,
 			Queries: res.Solver.Queries, SolverTimeS: res.Solver.Time.Seconds(), MaxQueryS: res.Solver.MaxQuery.Seconds(), WallS: res.Wall.Seconds(),
-			Asserts: res.Asserts, Reached: res.Reached, Notes: res.Notes, NdSources: res.NdSources, Redirects: es.Redirects, Violations: len(res.Violations), UnknownFeas: res.UnknownFeas}
+			CrossCheck: crossNote, Asserts: res.Asserts, Reached: res.Reached, Notes: res.Notes, NdSources: res.NdSources, Redirects: es.Redirects, Violations: len(res.Violations), UnknownFeas: res.UnknownFeas}
 		totalPaths += res.Paths
 		totalBranches += res.Branches
 		totalObl += res.Obligations
@@ -356,6 +399,9 @@ func cmdCheck(args []string) int {
 		for _, s := range res.Inconclusive {
 			inconclusive = append(inconclusive, es.Entry+": "+s)
 		}
+		if res.StoppedEarly {
+			anyStoppedEarly = true
+		}
 		if res.MaxPathsHit {
 			inconclusive = append(inconclusive, es.Entry+": path limit reached")
 		}
@@ -363,7 +409,7 @@ func cmdCheck(args []string) int {
 			inconclusive = append(inconclusive, fmt.Sprintf("%s: %d solver errors", es.Entry, res.Solver.Errors))
 		}
 		// vacuity
-		if res.Reached["end"] == 0 {
+		if res.Reached["end"] == 0 && !res.StoppedEarly {
 			inconclusive = append(inconclusive, es.Entry+": VACUOUS - no feasible path reaches the end of the harness")
 		}
 		for m := range assertMessages(fn) {
@@ -419,7 +465,7 @@ func cmdCheck(args []string) int {
 		reports = append(reports, rep)
 	}
 	for m := range allAsserts {
-		if assertsHit[m] == 0 && *only == "" {
+		if assertsHit[m] == 0 && *only == "" && !anyStoppedEarly {
 			inconclusive = append(inconclusive, fmt.Sprintf("VACUOUS - assertion %q is never reached by any entry of this tier", m))
 		}
 	}
@@ -443,6 +489,35 @@ func cmdCheck(args []string) int {
 	results, rlog, err := RunReplays(*repo, root, jobs, needRace, 10*time.Minute)
 	if err != nil {
 		inconclusive = append(inconclusive, "replay machinery failed: "+err.Error())
+	}
+	// counter-examples whose native manifestation is itself nondeterministic (map iteration order, goroutine
+	// scheduling) are replayed again, up to replay_attempts times, until the native run shows the failure
+	for attempt := 2; attempt <= 10; attempt++ {
+		var again []ReplayJob
+		for _, c := range cands {
+			if c.spec.ReplayAttempts < attempt {
+				continue
+			}
+			rr := results[c.path]
+			ok := false
+			if rr != nil {
+				for _, f := range rr.Failures {
+					if f == c.v.Msg || (c.v.Kind == "race" && f == "DATA RACE") {
+						ok = true
+					}
+				}
+			}
+			if !ok {
+				again = append(again, ReplayJob{Dir: c.spec.Dir, Entry: c.spec.Entry, Script: c.v.Script, Tol: c.spec.Tol, Path: c.path, Real: c.spec.Mode != "F", Rename: c.spec.NativeRename, NativeFiles: c.spec.NativeFiles})
+			}
+		}
+		if len(again) == 0 {
+			break
+		}
+		r2, _, _ := RunReplays(*repo, root, again, needRace, 10*time.Minute)
+		for k, v := range r2 {
+			results[k] = v
+		}
 	}
 	if rlog != "" {
 		inconclusive = append(inconclusive, "replay: "+trunc(rlog, 3000))
